@@ -248,7 +248,7 @@ where
             Err(_) => {
                 let ps = kernel::take_panics();
                 let p = ps.last();
-                if p.is_some_and(|p| kernel::location_in_repo(&p.location)) {
+                if p.is_some_and(kernel::panic_in_repo) {
                     let p = p.expect("record");
                     kernel::violation("C10", format!("transport-panic:{transport}"), format!("{transport}::receive panicked on a hostile datagram script: {} @ {}", p.message, p.location));
                     return "panic";
